@@ -90,6 +90,27 @@ def load_known():
         return json.load(fh)
 
 
+_CRATE = None
+
+
+def _site_signature(full):
+    """(rule, crate, site kind...) of a `RULE|fn path|kind|what...` key; None when the key has no function component"""
+    import re
+    parts = full.split("|")
+    if len(parts) < 3:
+        return None
+    rule, fnpath, rest = parts[0], parts[1], parts[2:]
+    if rest and re.fullmatch(r"#\d+", rest[-1].strip()):
+        rest = rest[:-1]
+    rest = [re.sub(r"\s+#\d+$", "", x) for x in rest]
+    if not rest:
+        return None
+    m = re.search(r"\btx3[a-z_]*", fnpath)
+    if not m:
+        return None
+    return (rule, m.group(0)) + tuple(rest)
+
+
 def finish(res, tier, t0, level="other", explanation="", trusted_base=(), assumptions=(), not_decided=(), seed=0,
            configs=("default",), digest=""):
     """match findings against the known-findings file, write evidence, print verdict; returns exit code"""
@@ -117,14 +138,40 @@ def finish(res, tier, t0, level="other", explanation="", trusted_base=(), assump
             known_hit.append((o, known_keys[full]))
         else:
             violations.append(o)
+    # Relocation: a listed finding whose enclosing function was renamed, or whose site was extracted into a helper / inlined
+    # into its caller, is still the same finding (the same input fails).  It is recognised only when the listed row went
+    # stale in this very run and an unlisted finding of the same rule, in the same crate, with the same site signature
+    # (the key without its function component and multiplicity) appeared instead: one stale row excuses one finding.
+    hit_keys = {"%s|%s" % (o.rule, o.key) for o, _ in known_hit}
+    stale_rows = {}
+    for full, k in known_keys.items():
+        if full not in hit_keys:
+            sg = _site_signature(full)
+            if sg:
+                stale_rows.setdefault(sg, []).append(k)
+    relocated = []
+    if stale_rows:
+        rest = []
+        for o in violations:
+            sg = _site_signature("%s|%s" % (o.rule, o.key))
+            if sg and stale_rows.get(sg):
+                k = stale_rows[sg].pop(0)
+                known_hit.append((o, k))
+                relocated.append((o, k))
+            else:
+                rest.append(o)
+        violations = rest
     evdir = os.environ.get("VERIF_EVIDENCE_DIR") or os.path.join(VERIF, "evidence")
     os.makedirs(evdir, exist_ok=True)
     for fn in os.listdir(evdir):
         if fn.startswith(prop + ".violation-"):
             os.unlink(os.path.join(evdir, fn))
     lines = []
+    reloc_ids = {id(o) for o, _ in relocated}
     for o, k in known_hit:
-        lines.append("KNOWN-FINDING: property=%s %s [%s] %s" % (prop, k.get("what", o.detail), o.rule, o.where))
+        lines.append("KNOWN-FINDING: property=%s %s [%s] %s%s" % (
+            prop, k.get("what", o.detail), o.rule, o.where,
+            " (relocated: listed as %s, now %s)" % (k["key"], o.key) if id(o) in reloc_ids else ""))
     replay_paths = []
     for i, o in enumerate(violations):
         rp = os.path.join(evdir, "%s.violation-%d.json" % (prop, i))
@@ -175,6 +222,7 @@ def finish(res, tier, t0, level="other", explanation="", trusted_base=(), assump
             "configs": list(configs),
             "source_digest": digest,
             "stale_known_rows": stale,
+            "relocated_known_findings": [{"listed": k["key"], "now": "%s|%s" % (o.rule, o.key), "where": o.where} for o, k in relocated],
             "notes": res.notes,
             "exhaustive": True,
         },
